@@ -104,3 +104,28 @@ package file
 //@   checks err == nil ==> forall i int :: 0 <= i && i < edsSize / 2 ==> square[i] == shares[i*(edsSize/2):(i+1)*(edsSize/2)]
 //@   loop 1: invariant -1 <= rangeindex && rangeindex < len(square) && len(square) == odsLn && len(shares) == odsLn*odsLn && odsLn == edsSize / 2 && isFresh(square)
 //@   loop 1: invariant forall i int :: 0 <= i && i <= rangeindex ==> square[i] == shares[i*odsLn:(i+1)*odsLn]
+
+// ---------------------------------------------------------------------------------------------
+// C07: write side. $Complete (see store/zz_contracts_verif.go): the block's files were created and
+// closed without error, or an existing pair passed the size validation.
+
+// assumed from its two halves (CreateODS, createQ4: each returns nil only after the file was written,
+// flushed and closed; the goroutine join returns nil only if both did)
+//@ func CreateODSQ4
+//@   property C07
+//@   trusted
+//@   effect $Complete := err == nil
+
+//@ func CreateODS
+//@   property C07
+//@   effect $Complete := err == nil
+
+//@ func ValidateODSQ4Size
+//@   property C07
+//@   trusted
+//@   effect $Complete := err == nil
+
+//@ func ValidateODSSize
+//@   property C07
+//@   trusted
+//@   effect $Complete := err == nil
